@@ -2,6 +2,7 @@
 
 #![allow(dead_code)]
 
+use crate::common::{hx, Ctx};
 use crate::refimpl::SuiteId;
 use rand::RngCore;
 use zkryptium::bbsplus::ciphersuites::{BbsCiphersuite, Bls12381Sha256, Bls12381Shake256};
@@ -38,6 +39,28 @@ pub fn name<X: Sx>() -> &'static str {
 }
 
 /// Key pair from seeded key material through the real KeyGen.
+/// key generation as a monitored call, over the whole valid range of its inputs (key material 32..=64 octets, key_info
+/// absent / empty / 1 .. 65535 octets - the largest the drafts allow, key_dst absent): a refusal or panic is a violation
+/// of the calling property's completeness ("for every key pair").
+pub fn keypair_monitored<X: Sx>(ctx: &Ctx, r: &mut impl RngCore, violation: &str) -> Option<(BBSplusSecretKey, BBSplusPublicKey)> {
+    let n = 32 + (r.next_u32() % 33) as usize;
+    let mut ikm = vec![0u8; n];
+    r.fill_bytes(&mut ikm);
+    let info_len = [0usize, 0, 1, 17, 300, 255, 256, 65534, 65535][(r.next_u32() % 9) as usize];
+    let mut info = vec![0u8; info_len];
+    r.fill_bytes(&mut info);
+    let info_opt: Option<&[u8]> = if info_len == 0 && r.next_u32() % 2 == 0 { None } else { Some(&info) };
+    let case = format!("{}/ikm{}/key_info{}", name::<X>(), n, if info_opt.is_none() { "None".to_string() } else { info_len.to_string() });
+    let m = ctx.call("KeyPair::generate", &case, None, || Kp::<X>::generate(&ikm, info_opt, None));
+    match m.value {
+        Some(kp) => Some(kp.into_parts()),
+        None => {
+            ctx.violation(violation, serde_json::json!({"case":case,"outcome":m.outcome.short(),"ikm":hx(&ikm)}));
+            None
+        }
+    }
+}
+
 pub fn keypair<X: Sx>(r: &mut impl RngCore) -> (BBSplusSecretKey, BBSplusPublicKey) {
     let n = 32 + (r.next_u32() % 33) as usize;
     let mut ikm = vec![0u8; n];
